@@ -16,7 +16,8 @@ def render_pmap(m):
 def group(mode, m):
     from picked_group_fdr import grouping
     strat = grouping.ProteinGroupingStrategyFactory(mode)
-    pil = {e: (0.001, list(ps)) for e, ps in m}
+    # every occurrence of an identifier is its own string object, as after cell.split(";") on a file row (equal, not identical)
+    pil = {e: (0.001, [(p + " ")[:-1] for p in ps]) for e, ps in m}
     pg = strat.group_proteins(pil, "")
     return [list(g) for g in pg.protein_groups]
 
